@@ -455,6 +455,13 @@ fn direct_list(rng: &mut Rng, cfg: &GenCfg) -> Vec<Stmt> {
     }
     // no line references, no READ (the DATA of the resident program would matter), no tracing
     out.retain(|s| !matches!(s, Stmt::Read(_) | Stmt::Restore(_) | Stmt::Tron | Stmt::Troff));
+    out.retain(|s| {
+        // planted errors may carry a line reference (ON -1 GOTO n): not legal material here
+        let mut has_target = false;
+        let mut s2 = s.clone();
+        crate::gen::map_targets_stmt(&mut s2, &mut |_| has_target = true);
+        !has_target
+    });
     if out.is_empty() {
         out.push(Stmt::Print {
             q: false,
